@@ -21,6 +21,8 @@ type C08Scenario struct {
 	Spec   JobSpec      `json:"spec"`
 	Pre    []server.VOp `json:"pre"`
 	Writer []server.VOp `json:"writer"`
+	// Writer2: a second writer thread (two writers whose commits may land in either order next to the run)
+	Writer2 []server.VOp `json:"writer2,omitempty"`
 }
 
 func c08RunSched(sc *C08Scenario, prefix []int, horizon int) *vsync.Execution {
@@ -52,8 +54,19 @@ func c08RunSched(sc *C08Scenario, prefix []int, horizon int) *vsync.Execution {
 			}
 		},
 	}
+	names := []string{"run", "writer"}
+	if len(sc.Writer2) > 0 {
+		bodies = append(bodies, func() {
+			for _, op := range sc.Writer2 {
+				if err := h.ApplyWrite(op); err != nil && werr == nil {
+					werr = err
+				}
+			}
+		})
+		names = append(names, "writer2")
+	}
 	server.VInstallHooks()
-	timedOut := s.Run(bodies, []string{"run", "writer"}, 30*time.Second)
+	timedOut := s.Run(bodies, names, 30*time.Second)
 	x := vsync.Collect(s, timedOut)
 	if x.Fatal() || len(x.Panics) > 0 {
 		return x
@@ -189,6 +202,8 @@ func c08Sched(r *engine.Run) {
 		{Name: "W2-latest-only-run-vs-source-writer", Spec: JobSpec{Sources: []string{"A"}, LatestOnly: true, Sink: "Z", JobType: "incremental", BatchSize: 1}, Pre: pre, Writer: writer},
 		{Name: "W3-union-run-vs-writer-of-earlier-member", Spec: JobSpec{Sources: []string{"A", "B"}, Union: true, Sink: "Z", JobType: "incremental", BatchSize: 1},
 			Pre: []server.VOp{b("A", e("e1", "v1")), b("B", e("e2", "v1"))}, Writer: []server.VOp{b("A", e("e3", "v1")), b("B", e("e4", "v1"))}},
+		{Name: "W5-incremental-run-vs-two-source-writers", Spec: JobSpec{Sources: []string{"A"}, Sink: "Z", JobType: "incremental", BatchSize: 1}, Pre: pre,
+			Writer: []server.VOp{b("A", e("e3", "v1"))}, Writer2: []server.VOp{b("A", e("e4", "v1"))}},
 		{Name: "W4-fullsync-run-vs-source-writer", Spec: JobSpec{Sources: []string{"A"}, Sink: "Z", JobType: "fullsync", BatchSize: 1}, Pre: pre, Writer: writer},
 	}
 	for _, sc := range scs {
